@@ -11,7 +11,9 @@ import (
 
 var props = map[string]func(tier string) []Scen{
 	"C01": scenariosC01,
+	"C04": scenariosC04,
 	"C10": scenariosC10,
+	"C12": scenariosC12,
 	"C13": scenariosC13,
 	"C14": scenariosC14,
 	"C17": scenariosC17,
@@ -26,6 +28,8 @@ var rules = map[string]string{
 	"C01": ruleA + "; scenarios = call scripts (target x flags x handler reply script) on 1-3 connections x segmentations of the request bytes; per connection the frames received and the handler invocation log are compared with a sequential reference model of that connection alone",
 	"C10": ruleA + "; scenarios = frame-kind sequences (valid calls, wrong-shape JSON, invalid JSON, empty frame, 5 KiB frame, unterminated tail) x the byte offset at which the client stops x how it goes away (half-close, close, abort) x injected reply-write failure, with a well-behaved probe connection and a final Shutdown; schedule deviations are explored at frame-boundary offsets",
 	"C13": ruleA + "; scenarios = all histories up to the length bound over {register(name, description) for 6 name/description pairs incl. duplicates, the built-in name and a resolver, serve, shutdown, query}; a query runs the library's own client helpers (GetInfo, GetInterfaceDescription for every mentioned name, its prefix, case variant and extension, Resolver.GetInfo/Resolve) over a controlled connection and compares with a list+map reference model",
+	"C04": "bounded-exhaustive enumeration executed on the real Service under the controlled scheduler (default schedule): every dot-joined sequence of <=4 tokens over {empty, a, b, A, é, org, varlink, service, GetInfo} plus near-misses (prefix, extension, case variant, doubled/leading/trailing dots, spaces) of every registrable name, against every set of <=3 registered names out of 7; one scenario = one batch of 400 method strings sent on one connection (so each answer also shows the connection stayed usable) or the family of 21 frames that are not calls, each on its own connection followed by a GetInfo; oracle = independent routing model (strings.Split) + per-dispatcher invocation log; states = distinct (set, batch) cases, transitions = scheduling steps; distinct_nontrivial = distinct observations",
+	"C12": "bounded-exhaustive enumeration executed on the real Service and Connection under the controlled scheduler (default schedule): every dot-joined error name of <=4 (thorough <=5) tokens over {empty, org, varlink, service, x, E, é} plus near-misses of the reserved namespace x 5 parameter documents (none, {}, nested, unicode, integer beyond 2^53 and an exponent), sent by a handler through ReplyError and received through Connection.Call; the four typed helpers x 4 argument strings; and the client mapping alone against a scripted raw server (well-shaped, absent, null and ill-shaped parameters); oracle = independent name classifier + raw-JSON equality (numbers as text) + wire frame; names whose last part is empty are counted as unspecified",
 	"C14": ruleA,
 	"C18": "bounded-exhaustive enumeration, each case executed once (default schedule; end-to-end cases with up to 2 schedule deviations) on the real ctxio.Conn over a controlled connection: all words up to the length bound over {ReadBytes(NUL), Read(1), Read(2), Read(7), Read(4096), Read(8192)} x 13 streams (0-2 frames incl. 4095/4096/4097-byte frames, payloads incl. one containing NUL and one larger than the reader's buffer) x segmentations (none, every 1-cut, 2-cuts, one byte per segment; boundary offsets for long streams); oracle = cursor into the stream; states = distinct cases, transitions = scheduling steps, distinct_nontrivial = distinct observations",
 	"C17": ruleA + "; scenarios = sequences of <=3 operations {ReadBytes, raw Read, Write} on a ctxio connection, the first 1-2 under a cancellable context x cancel|deadline x 3 segmentations of the peer stream x a coarse gate (operation index, chunks written) after which the cancellation step becomes enabled; the scheduler then places the cancellation (and, for deadlines, the connection's own deadline expiry, in both orders) at every point within the bound",
@@ -34,6 +38,8 @@ var rules = map[string]string{
 }
 
 var assumptions = map[string][]string{
+	"C12": {"names and parameters come from alphabets (valid UTF-8); raw-JSON equality uses encoding/json as a generic decoder with UseNumber", "ill-shaped parameters of org.varlink.service errors: only 'an error naming it, no panic' is required"},
+	"C04": {"method strings are valid UTF-8 over the token alphabet; the replies of the two real built-in methods are only checked for being exactly one reply (their content is C13's)", "classifyCall decides which frames are calls"},
 	"C18": {"a read on the controlled connection returns (a prefix of) the oldest unread segment, so segment boundaries are exactly the listed cuts; Coalesce models the network merging two writes", "streams are a small alphabet chosen around the 4096-byte bufio buffer"},
 	"C13": {"reference model: names in registration order after org.varlink.service, descriptions verbatim, registration refused iff duplicate or serving (serving = the serving call is blocked in Accept)", "identity and description strings are valid UTF-8 from a small adversarial alphabet incl. a 76 KiB description", "the race aspect of registering while serving is C16's"},
 	"C17": {"vnet.Conn implements the documented net.Conn deadline semantics (a deadline in the past fails pending and future I/O with a Timeout error, the zero deadline clears it); whether a real transport does is the subject of the separate transport matrix", "a context deadline is a far-future time plus two events: the context expiring and the connection deadline firing", "stream oracle: bytes may be lost only if they had arrived before a cancelled operation returned"},
